@@ -77,6 +77,8 @@ def runners(st):
 
 def stage_item(item):
     """item: program + list of (reference stage, compiled stage) pairs to validate"""
+    if item.get('ax'):
+        return ax_item(item)
     t0 = time.time()
     out = {'name': item['name'], 'pairs': item['pairs'], 'results': {}, 'status': 'ok'}
     try:
@@ -171,6 +173,8 @@ def run_tv(pid, items, rule, key_fn=None, pre=None):
             chk.report("focus/binder-uniqueness", f"{r['name']}: {r['uniqueness'][0]}", r)
         if r['status'] == 'error':
             chk.inconc(f"{r['name']}: {r.get('what')}")
+        if r.get('violation_panic'):
+            chk.report("linearize/panic", f"{r['name']}: the lineariser panicked: {r['violation_panic']}"[:300], r)
         if len(samples) < 5 and r['status'] == 'ok':
             samples.append({'program': r['name'], 'results': {k: {kk: vv for kk, vv in res.items() if kk in ('pairs', 'paths_a', 'cut', 'undefined', 'queries', 'solver_s', 'steps')}
                                                               for k, res in r['results'].items()}})
@@ -227,9 +231,63 @@ def c04():
                   "pairs, eta cases, covariable parameters); CoreM(focused) x AxM(named: calls bind exactly the callee's parameters)")
 
 
+def ax_item(item):
+    """a non-linear AxCut program given directly (JSON for E0 `axprog`, or one of the repository's axcut_examples)"""
+    t0 = time.time()
+    E = e0mod.shared()
+    out = {'name': item['name'], 'pairs': [('input', 'linearized')], 'results': {}, 'status': 'ok'}
+    if 'prog' in item:
+        r = E.req({'cmd': 'axprog', 'prog': item['prog'], 'linearize': True})
+    else:
+        r = _examples(E)['examples'].get(item['example'], {})
+    if 'input' in r and 'linearized' not in r and 'explicit substitutions' in str(r.get('panic')):
+        # hand-written program that is already linear (input of the back ends' golden tests): the named and the
+        # positional machine must agree on it as it stands (this validates the positional machine's rules)
+        r = dict(r, linearized=r['input'])
+    if 'input' not in r or 'linearized' not in r:
+        out.update(status='panic' if 'panic' in r else 'error', what=str(r.get('panic') or r)[:300])
+        if 'panic' in r:
+            out['violation_panic'] = r['panic']
+        return out
+    ip, lp = axm.Prog(rdebug.parse(r['input']['debug'])), axm.Prog(rdebug.parse(r['linearized']['debug']))
+    n = len(ip.defs[ip.main]['context']['bindings'])
+    b = item.get('budgets') or budgets()
+    ra = lambda vals, ctx: axm.run_named(ip, vals, ctx)
+    rb = lambda vals, ctx: axm.run_positional(lp, vals, ctx)
+    res = product.product(ra, rb, n, max_steps=b['max_steps'], max_paths=b['max_paths'], time_budget=b.get('time_budget', 60.0),
+                          timeout_ms=b.get('timeout_ms', 3000))
+    confirmed = []
+    for v in res['violations']:
+        ok, detail = product.confirm(ra, rb, v['args'], b['max_steps'] * 10)
+        v['reproduced'] = ok
+        v['replay'] = detail
+        confirmed.append(ok)
+    res['n_violations'] = len(res['violations'])
+    out['results']['input->linearized'] = res
+    if res['violations']:
+        out['status'] = 'violation' if any(confirmed) else 'unreproduced'
+    elif res['inconclusive']:
+        out['status'] = 'inconclusive'
+    out['secs'] = round(time.time() - t0, 2)
+    out['src'] = r['input'].get('text')
+    return out
+
+
+_ex_cache = {}
+
+
+def _examples(E):
+    if 'r' not in _ex_cache:
+        _ex_cache['r'] = E.req({'cmd': 'examples', 'asm': False})
+    return _ex_cache['r']
+
+
 def c05():
     tier = fw.tier()
+    import axprogs
     items = [dict(it, pairs=[('shrunk', 'linearized')]) for it in corpus() + gen_items(tier, 'all')]
+    direct = [{'name': 'axcut/' + p_['name'], 'prog': p_['prog'], 'ax': True} for p_ in axprogs.programs()]
+    items += direct
     return run_tv('C05', items, "AxCut programs produced by the pipeline for the C02-C04 sets; AxM(named) x AxM(positional) where the positional "
                   "machine enforces the exact-environment discipline of every statement (kind, type, position) on every explored path")
 
